@@ -21,7 +21,7 @@ CMP = ("x", "fun", "jac", "nfev", "njev", "nit", "message", "status", "success",
 
 def floors(tier):
     return {"pairs_compared": 300, "evaluation_points_compared": 5000, "callback_states_compared": 1500, "scaler_argument_checks": 300,
-            "target_runs": 100, "target_stops": 30, "packaged_scaler_pairs": 20, "finite_difference_pairs": 40,
+            "target_runs": 100, "target_runs_with_the_target_a_few_ulp_below_a_visited_value": 100, "target_stops": 30, "packaged_scaler_pairs": 20, "finite_difference_pairs": 40,
             "pairs_with_identity_update_function": 40, "pairs_with_an_update_function_switching_on_a_ridge_term": 40, "pairs_with_reused_gradient_buffer": 40, "pairs_from_a_start_beyond_unit_step_resolution": 20, "pairs_with_infinite_trial_values": 8, "__nontrivial__": 100}
 
 
@@ -62,7 +62,7 @@ def cases(tier, seed):
             s = float(np.exp(rng.uniform(np.log(1e-3), np.log(0.3))))
         if cfg["jac"] == "callable" and i % 5 == 2:
             cfg["reuse_grad_buffer"] = True  # the user's gradient fills and returns one preallocated array (in both runs of the pair)
-        yield {"problem": ps, "cfg": cfg, "s": s, "target_frac": float(rng.uniform(0.1, 0.9)), "ufd_identity": bool(i % 5 == 0),
+        yield {"problem": ps, "cfg": cfg, "s": s, "target_frac": float(rng.uniform(0.1, 0.9)), "ufd_identity": bool(i % 5 == 0), "target_ulps": int(rng.integers(1, 4)),
                "ufd_ridge": float(np.exp(rng.uniform(np.log(0.05), np.log(5.0)))) if i % 5 == 2 else None}
 
 
@@ -243,6 +243,21 @@ def run(spec):
         if fend < T < f0:
             At = probes.run_min(P, dict(cfg, scaler=scaler_cfg, ftarget=float(T)))
             check_target(out, At, s, float(T), f"{name} s={s!r}", tagsS)
+    # ... and with the target placed a few units in the last place BELOW the unscaled value of a visited iterate: that iterate does not
+    # meet it, the run must go on past it exactly as the run on s*f with the target s*T does... (judged on the stop only)
+    if ok and A.exc is None and len(A.cb) >= 2 and spec["s"] != "packaged":
+        kk = len(A.cb) // 2
+        fk = float(A.cb[kk]["snap"]["fun"]) / s
+        if np.isfinite(fk):
+            T2 = fk
+            for _ in range(int(spec.get("target_ulps", 2))):
+                T2 = float(np.nextafter(T2, -np.inf))
+            A2 = probes.run_min(P if not spec.get("ufd_ridge") else P, dict(cfg, scaler=scaler_cfg, ftarget=T2)) if not spec.get("ufd_ridge") else None
+            if A2 is not None and A2.exc is None:
+                out.count("target_runs_with_the_target_a_few_ulp_below_a_visited_value")
+                if A2.snap["message"] == MESSAGES["TARGET"] and not (A2.snap["fun"] / s <= T2):
+                    out.violate("target_tested_on_scaled_value", f"{name} s={s!r}: TARGET stop with fun/s = {A2.snap['fun'] / s!r} > ftarget = {T2!r} "
+                                f"(the target sits {spec.get('target_ulps', 2)} ulp below the value of iterate {kk + 1})", **tagsS)
     if cfg.get("reuse_grad_buffer"):
         out.count("pairs_with_reused_gradient_buffer")
     # (a scaler introduced on a restart leg is NOT compared with an explicitly scaled continuation: the restored history holds the
